@@ -428,9 +428,11 @@ CLAIM = {
     "technique": "global-state inventory over the call graph reachable from _isolated_backtest + reset-on-entry must-call rule + def-use rule for the deep copies of the arguments",
     "text": "Static. Every module-level mutable cell (containers, singletons, lru_cache memos) in the ~45 modules reachable from "
             "_isolated_backtest is inventoried on each run; each must be discharged by a verified reset-on-entry (store: reset() "
-            "re-creates every state attribute; router: initiate/_reset; config: set_config + install_routes + trading_mode; LOGGERS: cleared "
+            "re-creates every state attribute; router: initiate/_reset; config: a DEEP restore of the defaults by reset_config() on entry, "
+            "then set_config + install_routes + trading_mode; LOGGERS: cleared "
             "by the initial equity sample), be read-only / a pure memo, or carry a named exemption. Unknown cells and failing entries are "
-            "violations. Candle arguments must reach the simulator only as deep copies and no argument may be stored into. "
+            "violations. Candle arguments must reach the simulator only as deep copies and no argument may be stored into. No set is "
+            "turned into an ordered sequence in reachable code (iteration order of strings follows the per-process hash seed). "
             "Not decided: equality of results (needs execution).",
     "note": "Trusted: name-based call graph (over-approximate), the exemption table with its reasons.",
 }
